@@ -104,5 +104,11 @@ CHECKS = {
                  "disconnect() with a close after it; return to IDLE outside the loss closure closes the transport; loss closure writes "
                  "nothing and cancels writing timers; W4 (no write reachable after DISCONNECT) is a recorded known finding.",
          "note": BASE_NOTE + " Transport liveness is not modelled.", "technique": "who-may-write table over event x trigger context + phase reachability"},
+ "C03": {"text": "Premises of the framing lemma decided on the abstract paths of dataReceived for all four classes: framer state is the carry buffer "
+                 "only; carry reassigned to carry[E:] on the same path as the dispatch of carry[:E] with the same E under len(carry) >= E; "
+                 "E = decodeLength(carry[1:]) + scanned width + 1 with the scan starting at byte 1 and using decodeLength's continuation bit; "
+                 "non-dispatching paths leave the carry alone and leave the loop; no stale length; dispatcher passes the whole slice to at most "
+                 "one handler. Trace equality over chunkings is the lemma's conclusion, not observed.",
+         "note": BASE_NOTE + " decodeLength's correctness is C01's subject.", "technique": "path-sensitive def-use / alias analysis of the framer (lemma premises as structural rules)"},
 }
 NOT_APPLICABLE = {}
